@@ -61,3 +61,54 @@ package internal
 //@   loop 2 invariant -1 <= rangeindex && rangeindex <= len(keys)
 //@   loop 2 iteration-ensures [one-loader-per-prefix] calls(c.watchGroup.Run) == 1
 //@   loop 2 iteration-ensures [loader-owns-its-prefix] fresh_in_iteration(captured(arg(c.watchGroup.Run, 1), string)) && *captured(arg(c.watchGroup.Run, 1), string) == at_head(keys[rangeindex + 1])
+
+// Monitor: a subscriber that joins a cluster that already exists is first replayed every entry currently recorded
+// for its prefix (one OnAdd each, on this listener), then registered; one cluster per endpoint set.
+//@ func (*Registry).Monitor
+//@   prop C15
+//@   opaque getCluster, getCurrent, monitor
+//@   requires r != nil
+//@   loop 1 invariant -1 <= rangeindex && rangeindex <= len(kvs)
+//@   loop 1 iteration-ensures [current-entry-replayed-to-the-new-listener] calls(l.OnAdd, at_head(kvs[rangeindex + 1])) == 1 && calls(OnAdd) == 1
+//@   ensures [existing-cluster-replays-its-record] ret(getCluster, 1) ==> calls(ret(getCluster, 0).getCurrent, key) == 1
+//@   ensures [new-cluster-nothing-to-replay] !ret(getCluster, 1) ==> calls(getCurrent) == 0 && calls(OnAdd) == 0
+//@   ensures [registered-afterwards] calls(ret(getCluster, 0).monitor, key, l) == 1 && result == ret(monitor) && before(getCurrent, monitor)
+//@ func (*Registry).getCluster
+//@   prop C15
+//@   opaque getClusterKey, newCluster
+//@   guards r.lock: mapof(r.clusters)
+//@   requires r != nil && r.clusters != nil
+//@   let ck = ret(getClusterKey)
+//@   let locked = on("lock", r.lock)
+//@   ensures [existing-shared] at(locked, has(r.clusters, ck)) ==> exists && c == at(locked, r.clusters[ck]) && calls(newCluster) == 0
+//@   ensures [new-registered-under-lock] !at(locked, has(r.clusters, ck)) ==> !exists && calls(newCluster, endpoints) == 1 && c == ret(newCluster) && has(r.clusters, ck) && r.clusters[ck] == c && before(newCluster, on("unlock", r.lock))
+// monitor: the listener is appended to the prefix's listeners under the lock; the prefix is loaded once (initial
+// snapshot) and then watched from the loaded revision in the cluster's routine group.
+//@ func (*cluster).monitor
+//@   prop C15
+//@   opaque getClient, load, Run
+//@   requires c != nil && c.listeners != nil
+//@   ensures [listener-registered] len(c.listeners[key]) == old(len(c.listeners[key])) + 1 && c.listeners[key][len(c.listeners[key]) - 1] == l && before(on("lock", c.lock), on("unlock", c.lock))
+//@   ensures [no-client] ret(getClient, 1) != nil ==> result == ret(getClient, 1) && calls(load) == 0 && calls(Run) == 0
+//@   ensures [loaded-then-watched] ret(getClient, 1) == nil ==> result == nil && calls(c.load, ret(getClient, 0), key) == 1 && calls(c.watchGroup.Run) == 1 && before(load, Run)
+//@ func (*cluster).monitor$1
+//@   prop C15
+//@   opaque watch
+//@   ensures [watches-from-the-loaded-revision] calls(c.watch, cli, key, rev) == 1
+// watch: a broken stream is re-opened until the cluster is shut down.
+//@ func (*cluster).watch
+//@   prop C15
+//@   opaque watchStream
+//@   loop 1 iteration-ensures [reopened-after-a-broken-stream] calls(c.watchStream, cli, key, rev) == 1 && !ret(watchStream)
+//@   ensures [ends-only-on-shutdown] calls(watchStream) == 1 && ret(watchStream)
+// watchStream: starts after the last seen revision (rev+1) when there is one; every healthy response is handed,
+// whole, to handleWatchEvents for this prefix; a closed / cancelled / failed stream ends with false (to be
+// re-opened), a cluster shutdown with true.
+//@ func (*cluster).watchStream
+//@   prop C15
+//@   opaque context, makeKeyPrefix, handleWatchEvents, Error, Errorf, Err
+//@   ensures [from-next-revision] rev != 0 ==> calls(clientv3.WithRev, rev + 1) == 1
+//@   ensures [from-now-when-unknown] rev == 0 ==> calls(clientv3.WithRev) == 0
+//@   ensures [one-watch-on-the-prefix] calls(cli.Watch) == 1 && arg(cli.Watch, 1) == ret(makeKeyPrefix) && calls(makeKeyPrefix, key) == 1
+//@   loop 1 iteration-ensures [healthy-response-handled] calls(c.handleWatchEvents) == 1 && arg(c.handleWatchEvents, 1) == key && arg(c.handleWatchEvents, 2) == ret(on("recv", local(watchCh)), 0).Events && ret(on("recv", local(watchCh)), 1) && !ret(on("recv", local(watchCh)), 0).Canceled
+//@   ensures [shutdown-true-else-false] result == (calls(on("recv", c.done)) == 1)
